@@ -24,6 +24,9 @@ type checkSpec struct {
 	Real, Stub     []string
 	Assumptions    []string
 	Classes        []string // violation class prefixes that belong to this property (others are reported as observations)
+	// ExtraOverlay adds files to /repo packages at build time (key: path relative to /repo, value: path
+	// relative to /verif/dsim): the way a harness reaches unexported or internal code without a commit.
+	ExtraOverlay map[string]string
 }
 
 var storagePkgs = []string{"tsdb", "tsdb/engine/tsm1", "tsdb/index/tsi1", "pkg/file", "pkg/limiter"}
@@ -136,5 +139,20 @@ func init() {
 		Probes: []string{"files_level1", "tombstones_on_disk"},
 		Real:   engReal, Stub: engStub,
 		Assumptions: []string{"race detector findings replay by seed because the interleaving is the simulator's; reads judged with interval semantics (some serial order of completed operations)"},
+	})
+}
+
+func init() {
+	reg(&checkSpec{
+		ID: "C38", Harness: "eng", Inst: storagePkgs, Level: "exploration", Classes: []string{"C38:"},
+		Cfgs: []cfgSpec{
+			{Name: "backup-quiescent", Cfg: "clients=1,wbackup=4,wdel=2,wdm=1,wsnap=2,wfull=1,noreopen,nosettle", Gating: true, Share: 3},
+			{Name: "backup-with-concurrent-writers", Cfg: "clients=3,wbackup=3,wdel=1,wdm=0,wsnap=2,noreopen,nosettle", Gating: false, Share: 1},
+		},
+		QuickSecs: 50, ThoroughSecs: 900, MaxRunsPerProc: 150,
+		Rule:   "one case = one generated write/delete/snapshot/compaction history with backup operations (full backup + restore into an empty shard, incremental backup since t, export of a time range + import) under one seeded schedule; non-trivial = at least 4 operations and one context switch; distinct = distinct hash of (operations, schedule)",
+		Probes: []string{"backup_restore", "incremental_backup", "export_import"},
+		Real:   append([]string{"Shard.Backup/Restore/Export/Import, pkg/tar"}, engReal...), Stub: engStub,
+		Assumptions: []string{"no archive faults are injected (the property says nothing about damaged archives)", "gating backups are taken by the only client (quiescent w.r.t. writers; background snapshots/compactions still run); backups concurrent with writers are an observing configuration judged with interval semantics"},
 	})
 }
